@@ -26,17 +26,22 @@ _SF = [None]
 
 
 _TURN = [0]
+LAST = [None]       # the turn used by the most recent call in this process (recorded in replay files)
 
 
-def dirty():
+def dirty(turn=None):
     """the lists are rotated by one position per call, so that over the shards of a run every failing call is, at some point,
     the *last* thing the library saw before the enumerated inputs (a later successful call may sweep a residue away)"""
     sf = _SF[0]
     if sf is None:
         import selfies
         sf = _SF[0] = selfies
-    k = _TURN[0]
-    _TURN[0] += 1
+    if turn is None:
+        k = _TURN[0]
+        _TURN[0] += 1
+    else:
+        k = turn
+    LAST[0] = k
     flags_d = ({"compatible": True}, {"attribute": True}, {})
     flags_e = ({"attribute": True}, {"strict": False}, {})
     n = len(DECODES)
